@@ -4,6 +4,7 @@ go 1.22.0
 
 require (
 	github.com/ProtonMail/go-crypto v1.0.0
+	github.com/beevik/etree v1.4.1
 	github.com/golang/snappy v0.0.4
 	github.com/miekg/pkcs11 v1.1.1
 	github.com/rs/zerolog v1.33.0
@@ -39,7 +40,6 @@ require (
 	github.com/aws/aws-sdk-go-v2/service/ssooidc v1.28.7 // indirect
 	github.com/aws/aws-sdk-go-v2/service/sts v1.33.3 // indirect
 	github.com/aws/smithy-go v1.22.1 // indirect
-	github.com/beevik/etree v1.4.1 // indirect
 	github.com/beorn7/perks v1.0.1 // indirect
 	github.com/blakesmith/ar v0.0.0-20190502131153-809d4375e1fb // indirect
 	github.com/bradfitz/gomemcache v0.0.0-20230905024940-24af94b03874 // indirect
